@@ -341,6 +341,12 @@ func resolveScalarBatch(sources []interface{}, typ *Scalar, destinations []*outp
 func resolveEnumBatch(sources []interface{}, typ *Enum, destinations []*outputNode) error {
 	for i, source := range sources {
 		val := unwrap(source)
+		if val == nil {
+			// A batch field func may leave out an index; like a missing scalar, a
+			// missing enum value is null (the advertised type is nullable then).
+			destinations[i].Fill(nil)
+			continue
+		}
 		if mapVal, ok := typ.ReverseMap[val]; !ok {
 			err := errors.New("enum is not valid")
 			destinations[i].Fail(err)
